@@ -3,7 +3,7 @@ C08 — responses are checked against the entry chosen for their status code.
 Property theorems only (model and spec: KinModel/Response.lean; helper lemmas: KinModel/Lemmas/C08.lean).
 
 Full-strength statement (the goal shape):
-    ∀ canon o i, (validateResponse canon o i).err = none ↔ Accept canon o i
+    ∀ canon o i, (validateResponse canon reg o i).err = none ↔ Accept canon reg o i
 It is proved below as `accept_iff_partial` outside two decidable exclusion classes in which the code
 really deviates from the property text (each with a kernel-checked witness, replayed on the Go code):
   HdrDecodedNil     a present header whose decoding gives no value is validated as `null`
@@ -16,6 +16,7 @@ regression theorems (model = spec on them, inputs kept in corpus/C08):
                     `header_writeOnly_rejected`, `header_required_writeOnly_absent_accepted`
 -/
 import KinModel.Lemmas.C08
+import KinModel.ResponseReg
 namespace KinModel.Response
 
 /-! ### Selection of the response entry -/
@@ -99,30 +100,30 @@ theorem writeOnly_null_rejected :
 /-! ### ValidateResponse -/
 
 /-- HEAD requests are not checked. -/
-theorem head_not_checked (canon : String → String) (o : Opts) (i : Input) (h : i.method = "HEAD") :
-    validateResponse canon o i = ⟨none, some i.body⟩ := by
+theorem head_not_checked (canon : String → String) (reg : List (String × String)) (o : Opts) (i : Input) (h : i.method = "HEAD") :
+    validateResponse canon reg o i = ⟨none, some i.body⟩ := by
   simp [validateResponse, h]
 
 /-- 301, 304, 307 and 308 responses are not checked. -/
-theorem redirects_not_checked (canon : String → String) (o : Opts) (i : Input)
+theorem redirects_not_checked (canon : String → String) (reg : List (String × String)) (o : Opts) (i : Input)
     (h : i.status = 301 ∨ i.status = 304 ∨ i.status = 307 ∨ i.status = 308) :
-    validateResponse canon o i = ⟨none, some i.body⟩ := by
+    validateResponse canon reg o i = ⟨none, some i.body⟩ := by
   have := (skipStatus_iff i.status).mpr h
   unfold validateResponse
   by_cases hm : i.method = "HEAD" <;> simp [hm, this]
 
 /-- A status without definition passes unless strict status checking is requested. -/
-theorem undefined_status (canon : String → String) (o : Opts) (i : Input)
+theorem undefined_status (canon : String → String) (reg : List (String × String)) (o : Opts) (i : Input)
     (hm : i.method ≠ "HEAD") (hs : skipStatus i.status = false) (he : i.responses ≠ [])
     (hn : selected i.responses i.status = none) :
-    (validateResponse canon o i).err = if o.strict then some .statusNotSupported else none := by
+    (validateResponse canon reg o i).err = if o.strict then some .statusNotSupported else none := by
   unfold validateResponse
   have : i.responses.isEmpty = false := by cases h : i.responses <;> simp_all
   rw [firstSome_statusKeys, hn]
   cases o.strict <;> simp [hm, hs, this]
 
-theorem acceptB_iff (canon : String → String) (o : Opts) (i : Input) :
-    acceptB canon o i = true ↔ Accept canon o i := by
+theorem acceptB_iff (canon : String → String) (reg : List (String × String)) (o : Opts) (i : Input) :
+    acceptB canon reg o i = true ↔ Accept canon reg o i := by
   unfold acceptB Accept
   have hsk : skippedB i = true ↔ Skipped i := by simp [skippedB, Skipped, or_assoc]
   simp only [Bool.or_eq_true, hsk]
@@ -141,18 +142,18 @@ theorem acceptB_iff (canon : String → String) (o : Opts) (i : Input) :
         · exact Or.inr (h x hx hn)
     · cases o.excludeBody <;> simp
 
-/-- **C08 main theorem.** Full strength: `(validateResponse canon o i).err = none ↔ Accept canon o i` for every
+/-- **C08 main theorem.** Full strength: `(validateResponse canon reg o i).err = none ↔ Accept canon reg o i` for every
 response map, status, header set, content type, body, decoding outcome and option set. Proved outside the two
 exclusion classes (each has a witness below): the response passes exactly when it is skipped (HEAD, 301/304/307/308),
 or no entry is selected and strictness is off, or — against the entry selected by exact code, class pattern,
 default — every declared header other than Content-Type is present-and-valid or absent-and-optional, and
 (unless the body is excluded) the content map is empty or the media type selected for the Content-Type has no
 schema or the decoded body satisfies the response-side reading of its schema. -/
-theorem accept_iff_partial (canon : String → String) (o : Opts) (i : Input)
+theorem accept_iff_partial (canon : String → String) (reg : List (String × String)) (o : Opts) (i : Input)
     (hx : Excluded canon o i = false) :
-    (validateResponse canon o i).err = none ↔ Accept canon o i := by
+    (validateResponse canon reg o i).err = none ↔ Accept canon reg o i := by
   simp only [Excluded, Bool.or_eq_false_iff] at hx
-  obtain ⟨hx1, hx3⟩ := hx
+  obtain ⟨⟨hx1, hx2⟩, hx3⟩ := hx
   by_cases hm : i.method = "HEAD"
   · simp [validateResponse, Accept, hm, Skipped]
   · cases hs : skipStatus i.status with
@@ -178,26 +179,32 @@ theorem accept_iff_partial (canon : String → String) (o : Opts) (i : Input)
       | false =>
         cases hsel : selected i.responses i.status with
         | none =>
-          have := undefined_status canon o i hm hs (by intro h; simp [h] at he) hsel
+          have := undefined_status canon reg o i hm hs (by intro h; simp [h] at he) hsel
           rw [this]; cases o.strict <;> simp
         | some r =>
-          rw [validateResponse_selected canon o i r hm hs he hsel]
+          rw [validateResponse_selected canon reg o i r hm hs he hsel]
           have hex : ∀ h, h ∈ r.headers → h.name ≠ "Content-Type" →
-              hdrDecodedNil canon i.hdrs h = false := by
+              hdrDecodedNil canon i.hdrs h = false ∧ hdrArrayNoItems canon i.hdrs h = false := by
             intro h hmem hn
-            simp only [HdrDecodedNil, anyHdr, hsel, List.any_eq_false] at hx1
-            have := hx1 h hmem
-            simpa [hn] using this
+            constructor
+            · simp only [HdrDecodedNil, anyHdr, hsel, List.any_eq_false] at hx1
+              have := hx1 h hmem
+              simpa [hn] using this
+            · simp only [HdrArrayNoItems, anyHdr, hsel, List.any_eq_false] at hx2
+              have := hx2 h hmem
+              simpa [hn] using this
           have hh : firstErr (checkHeader canon o.woOff i.hdrs) (checkedHeaders r) = none ↔
               ∀ h, h ∈ r.headers → h.name ≠ "Content-Type" → HeaderOK canon o.woOff i.hdrs h := by
             rw [firstErr_none_iff]
             constructor
             · intro hall h hmem hn
-              exact (checkHeader_iff canon o.woOff i.hdrs h (hex h hmem hn)).mp
+              obtain ⟨e1, e2⟩ := hex h hmem hn
+              exact (checkHeader_iff canon o.woOff i.hdrs h e1 e2).mp
                 (hall h ((mem_checkedHeaders r h).mpr ⟨hmem, hn⟩))
             · intro hall h hmem
               obtain ⟨hmem, hn⟩ := (mem_checkedHeaders r h).mp hmem
-              exact (checkHeader_iff canon o.woOff i.hdrs h (hex h hmem hn)).mpr (hall h hmem hn)
+              obtain ⟨e1, e2⟩ := hex h hmem hn
+              exact (checkHeader_iff canon o.woOff i.hdrs h e1 e2).mpr (hall h hmem hn)
           cases hf : firstErr (checkHeader canon o.woOff i.hdrs) (checkedHeaders r) with
           | some e =>
             have hne : ¬ (∀ h, h ∈ r.headers → h.name ≠ "Content-Type" → HeaderOK canon o.woOff i.hdrs h) := by
@@ -207,24 +214,24 @@ theorem accept_iff_partial (canon : String → String) (o : Opts) (i : Input)
             · intro h; exact absurd h.1 hne
           | none =>
             have hok := hh.mp hf
-            show (checkBody o i r).err = none ↔ _
+            show (checkBody reg o i r).err = none ↔ _
             cases heb : o.excludeBody with
             | true =>
-              have hc : (checkBody o i r).err = none := by simp [checkBody, heb]
+              have hc : (checkBody reg o i r).err = none := by simp [checkBody, heb]
               constructor
               · intro _; exact ⟨hok, fun h => by simp at h⟩
               · intro _; exact hc
             | false =>
-              have hb := checkBody_iff o i r heb
+              have hb := checkBody_iff reg o i r heb
               constructor
               · intro h; exact ⟨hok, fun _ => hb.mp h⟩
               · intro h; exact hb.mpr (h.2 rfl)
 
 /-- **The body stays readable.** Whatever the verdict, when the body reader does not fail, what can be read from
 `input.Body` afterwards is what could be read before (the bytes are re-installed with SetBodyBytes). -/
-theorem body_readable_after (canon : String → String) (o : Opts) (i : Input) (h : i.readFails = false) :
-    (validateResponse canon o i).bodyAfter = some i.body := by
-  have hb : ∀ r, (checkBody o i r).bodyAfter = some i.body := by
+theorem body_readable_after (canon : String → String) (reg : List (String × String)) (o : Opts) (i : Input) (h : i.readFails = false) :
+    (validateResponse canon reg o i).bodyAfter = some i.body := by
+  have hb : ∀ r, (checkBody reg o i r).bodyAfter = some i.body := by
     intro r
     unfold checkBody
     simp only [h, Bool.false_eq_true, if_false]
@@ -235,14 +242,14 @@ theorem body_readable_after (canon : String → String) (o : Opts) (i : Input) (
   all_goals first | rfl | exact hb _
 
 /-- MultiError changes the report only, never the verdict nor the body. -/
-theorem multiError_irrelevant (canon : String → String) (o : Opts) (i : Input) (m : Bool) :
-    validateResponse canon { o with multi := m } i = validateResponse canon o i := rfl
+theorem multiError_irrelevant (canon : String → String) (reg : List (String × String)) (o : Opts) (i : Input) (m : Bool) :
+    validateResponse canon reg { o with multi := m } i = validateResponse canon reg o i := rfl
 
 /-- ExcludeResponseBody removes exactly the body check: the headers decide. -/
-theorem excludeBody_headers_decide (canon : String → String) (o : Opts) (i : Input) (r : Resp)
+theorem excludeBody_headers_decide (canon : String → String) (reg : List (String × String)) (o : Opts) (i : Input) (r : Resp)
     (hb : o.excludeBody = true) (hm : i.method ≠ "HEAD") (hs : skipStatus i.status = false)
     (he : i.responses ≠ []) (hsel : selected i.responses i.status = some r) :
-    (validateResponse canon o i).err = firstErr (checkHeader canon o.woOff i.hdrs) (checkedHeaders r) := by
+    (validateResponse canon reg o i).err = firstErr (checkHeader canon o.woOff i.hdrs) (checkedHeaders r) := by
   unfold validateResponse
   have : i.responses.isEmpty = false := by cases h : i.responses <;> simp_all
   rw [firstSome_statusKeys, hsel]
@@ -275,14 +282,14 @@ theorem header_by_content_presence_only (canon : String → String) (w : Bool) (
 
 /-! ### Witnesses of the exclusion classes (model ≠ spec on a concrete input inside the class) -/
 
-def strHdr (s : Sch) (d : Dec) : Hdr := { name := "X-A", required := false, schema := some s, dec := d }
+def strHdr (s : Sch) (d : Dec) : Hdr := { name := "X-A", required := false, schema := some s, objDec := d }
 def inp (resps : List (String × Resp)) (hdrs : List (String × String)) (d : Dec) : Input :=
   { method := "GET", status := 200, responses := resps, hdrs := hdrs, body := "", readFails := false, bodyDec := d }
 
 /-- `X-A: abc` against the header schema `{}`: rejected ("Value is not nullable") although every value satisfies `{}`. -/
 theorem witness_HdrDecodedNil :
     let i := inp [("200", ⟨[strHdr (.mk {} .nil .none .none) .nil], []⟩)] [("X-A", "abc")] .err
-    HdrDecodedNil id i = true ∧ (validateResponse id {} i).err = some (.hdrSchema "X-A") ∧ acceptB id {} i = true := by
+    HdrDecodedNil id i = true ∧ (validateResponse id genReg {} i).err = some (.hdrSchema "X-A") ∧ acceptB id genReg {} i = true := by
   decide
 
 def pwHdrSchema : Sch :=
@@ -293,8 +300,8 @@ write-only is rejected by the model and by the spec, lies in no exclusion class,
 write-only checks are switched off. -/
 theorem header_writeOnly_rejected :
     let i := inp [("200", ⟨[strHdr pwHdrSchema (.val (.obj (.cons "pw" (.str "x") .nil)))], []⟩)] [("X-A", "pw,x")] .err
-    Excluded id {} i = false ∧ (validateResponse id {} i).err = some (.hdrSchema "X-A") ∧ acceptB id {} i = false ∧
-      (validateResponse id { woOff := true } i).err = none ∧ acceptB id { woOff := true } i = true := by
+    Excluded id {} i = false ∧ (validateResponse id genReg {} i).err = some (.hdrSchema "X-A") ∧ acceptB id genReg {} i = false ∧
+      (validateResponse id genReg { woOff := true } i).err = none ∧ acceptB id genReg { woOff := true } i = true := by
   decide
 
 def pwReqHdrSchema : Sch :=
@@ -306,14 +313,14 @@ def pwReqHdrSchema : Sch :=
 accepted by the model and by the spec. -/
 theorem header_required_writeOnly_absent_accepted :
     let i := inp [("200", ⟨[strHdr pwReqHdrSchema (.val (.obj (.cons "n" (.str "x") .nil)))], []⟩)] [("X-A", "n,x")] .err
-    Excluded id {} i = false ∧ (validateResponse id {} i).err = none ∧ acceptB id {} i = true := by
+    Excluded id {} i = false ∧ (validateResponse id genReg {} i).err = none ∧ acceptB id genReg {} i = true := by
   decide
 
 /-- Empty responses map, IncludeResponseStatus: accepted although no entry defines the status. -/
 theorem witness_EmptyMapStrict :
     let i := inp [] [] .err
-    EmptyMapStrict { strict := true } i = true ∧ (validateResponse id { strict := true } i).err = none ∧
-      acceptB id { strict := true } i = false := by
+    EmptyMapStrict { strict := true } i = true ∧ (validateResponse id genReg { strict := true } i).err = none ∧
+      acceptB id genReg { strict := true } i = false := by
   decide
 
 /-- Regression (F-C08-4, fixed): body `{"pw": null}` against a schema whose nullable property `pw` is write-only
@@ -321,14 +328,14 @@ is rejected by the model and by the spec, and lies in no exclusion class. -/
 theorem writeOnly_null_rejected_in_body :
     let i := inp [("200", ⟨[], [("application/json", ⟨some (pwSchema true)⟩)]⟩)] [("Content-Type", "application/json")]
               (.val (.obj (.cons "pw" .null .nil)))
-    Excluded id {} i = false ∧ (validateResponse id {} i).err = some .bodySchema ∧ acceptB id {} i = false := by
+    Excluded id {} i = false ∧ (validateResponse id genReg {} i).err = some .bodySchema ∧ acceptB id genReg {} i = false := by
   decide
 
 /-! ### Non-vacuity: inputs outside every exclusion class on which both directions are exercised -/
 
 def exResp : Resp :=
-  ⟨[{ name := "X-B", required := true, schema := some (.mk { ty := .integer, maxI := some 9 } .nil .none .none), dec := .val (.num 5) },
-    { name := "X-A", required := false, schema := some (.mk { ty := .string } .nil .none .none), dec := .nil }],
+  ⟨[{ name := "X-B", required := true, schema := some (.mk { ty := .integer, maxI := some 9 } .nil .none .none), objDec := .err },
+    { name := "X-A", required := false, schema := some (.mk { ty := .string } .nil .none .none), objDec := .err }],
    [("application/json", ⟨some (pwSchema false)⟩)]⟩
 
 def exIn (status : Int) (body : J) : Input :=
@@ -337,14 +344,14 @@ def exIn (status : Int) (body : J) : Input :=
     bodyDec := .val body }
 
 example : Excluded id {} (exIn 201 (.obj (.cons "id" (.num 1) .nil))) = false := by decide
-example : (validateResponse id {} (exIn 201 (.obj (.cons "id" (.num 1) .nil)))).err = none := by decide
-example : Accept id {} (exIn 201 (.obj (.cons "id" (.num 1) .nil))) :=
-  (accept_iff_partial id {} _ (by decide)).mp (by decide)
+example : (validateResponse id genReg {} (exIn 201 (.obj (.cons "id" (.num 1) .nil)))).err = none := by decide
+example : Accept id genReg {} (exIn 201 (.obj (.cons "id" (.num 1) .nil))) :=
+  (accept_iff_partial id genReg {} _ (by decide)).mp (by decide)
 example : Excluded id {} (exIn 201 (.obj (.cons "pw" (.str "x") .nil))) = false := by decide
-example : (validateResponse id {} (exIn 201 (.obj (.cons "pw" (.str "x") .nil)))).err = some .bodySchema := by decide
-example : ¬ Accept id {} (exIn 201 (.obj (.cons "pw" (.str "x") .nil))) :=
-  fun h => by have := (accept_iff_partial id {} _ (by decide)).mpr h; revert this; decide
-example : (validateResponse id {} (exIn 404 .null)).err = none := by decide
+example : (validateResponse id genReg {} (exIn 201 (.obj (.cons "pw" (.str "x") .nil)))).err = some .bodySchema := by decide
+example : ¬ Accept id genReg {} (exIn 201 (.obj (.cons "pw" (.str "x") .nil))) :=
+  fun h => by have := (accept_iff_partial id genReg {} _ (by decide)).mpr h; revert this; decide
+example : (validateResponse id genReg {} (exIn 404 .null)).err = none := by decide
 example : classKey 201 = some "2XX" ∧ classKey 99 = none ∧ classKey 600 = none ∧ classKey 599 = some "5XX" := by decide
 
 end KinModel.Response
